@@ -23,7 +23,7 @@ def inmem_cases(ctx):
         n = rng.choice([0, 1, 2, 9, 33])
         las = laspy.LasData(header=h)
         pts = lasio.rand_points(rng, h, n)
-        kind = rng.choice(["assign", "slice", "mask", "list", "update", "int"])
+        kind = rng.choice(["assign", "slice", "mask", "list", "update", "int", "resample"])
         las.points = pts
         if kind == "assign" or n == 0:
             out.append(("points assigned", las))
@@ -38,6 +38,10 @@ def inmem_cases(ctx):
         elif kind == "list":
             ix = [rng.randrange(n) for _ in range(rng.choice([0, 0, 1, 2, 5]))]
             out.append((f"las[{ix}]", las[np.array(ix, dtype=np.int64)]))
+        elif kind == "resample":
+            # exactly len(las) indices, with repetitions: same count, different multiset
+            ix = [rng.randrange(n) for _ in range(n)] if rng.random() < 0.6 else [rng.randrange(n)] * n
+            out.append((f"las[resample {n}]", las[np.array(ix, dtype=np.int64)]))
         elif kind == "int":
             continue
         else:
